@@ -77,10 +77,10 @@ Theorem C11_plain_choice_resolves_str : forall tok_number tok_isnumber tok_times
 Proof. exact plain_choice_resolves_str. Qed.
 Print Assumptions C11_plain_choice_resolves_str.
 
-(* ... and is syntactically a plain scalar, except three dots in column 0 *)
+(* ... and is syntactically a plain scalar, in every position *)
 Theorem C11_plain_choice_ok : forall tok_number tok_isnumber tok_timestamp is_key multi col0 s,
   choose_style tok_number tok_isnumber tok_timestamp is_key multi s = Plain ->
-  plain_ok col0 s = true \/ (col0 = true /\ dots_marker s = true).
+  plain_ok col0 s = true.
 Proof. exact plain_choice_ok. Qed.
 Print Assumptions C11_plain_choice_ok.
 
@@ -105,13 +105,13 @@ Proof. exact literal_choice_gap. Qed.
 Print Assumptions C11_literal_choice_gap.
 
 (* the gap is inhabited: witnesses for each class (oracles as the implementation's libraries answer on them) *)
-Theorem C11_style_choice_refuted_dots :
-  ex_choose false false dots = Plain /\ ex_choose true false dots = Plain /\
-  style_gap ex_print true Plain dots = true /\
-  plain_ok true dots = false /\
-  ex_read 0 true true val_suffix (ex_doc Plain 2 dots val_suffix) = None.
-Proof. exact style_choice_refuted_dots. Qed.
-Print Assumptions C11_style_choice_refuted_dots.
+Theorem C11_dots_quoted :
+  ex_choose false false dots = Double /\ ex_choose true false dots = Double /\
+  ex_choose true false [46; 46; 46; 97] = Double /\ ex_choose false false [46; 46; 46; 32; 120] = Double /\
+  ex_read 0 true true val_suffix (ex_doc Double 2 dots val_suffix) = Some dots /\
+  ex_read 0 false true key_suffix (ex_doc Double 2 [46; 46; 46; 97] key_suffix) = Some [46; 46; 46; 97].
+Proof. exact dots_quoted. Qed.
+Print Assumptions C11_dots_quoted.
 
 Theorem C11_style_choice_refuted_nbsp :
   ex_choose false false hash_nbsp = SingleGo /\
